@@ -29,12 +29,17 @@ type FaultsPlan struct {
 	Family   string              `json:"family"` // trunc | wfail | corrupt | rderr | crash
 	Msgs     []MsgSpec           `json:"msgs"`
 	Policies []simio.ChunkPolicy `json:"policies,omitempty"`
-	Wraps    []string            `json:"wraps,omitempty"`  // per policy: what concrete reader type the stream is handed over as (see source.go)
-	Seed     uint64              `json:"seed"`             // derives sampled positions / arbitrary bytes
-	Points   []int               `json:"points,omitempty"` // explicit fault positions (minimised plans); empty = enumerate/sample
-	Off      int64               `json:"off,omitempty"`    // disk offset for the real-stack variants
-	Extra    []int               `json:"extra,omitempty"`  // corrupt: numbers of trailing bytes R; crash: see below
-	Crash    *CrashPlan          `json:"crash,omitempty"`
+	// ErrKind: WHICH error value the failing writer returns ("" = a private
+	// sentinel; "shortwrite" = io.ErrShortWrite, "eof" = io.EOF, "closedpipe" =
+	// io.ErrClosedPipe): code that special-cases a well-known error value must
+	// still stop at the first failure and report that error.
+	ErrKind string     `json:"err_kind,omitempty"`
+	Wraps   []string   `json:"wraps,omitempty"`  // per policy: what concrete reader type the stream is handed over as (see source.go)
+	Seed    uint64     `json:"seed"`             // derives sampled positions / arbitrary bytes
+	Points  []int      `json:"points,omitempty"` // explicit fault positions (minimised plans); empty = enumerate/sample
+	Off     int64      `json:"off,omitempty"`    // disk offset for the real-stack variants
+	Extra   []int      `json:"extra,omitempty"`  // corrupt: numbers of trailing bytes R; crash: see below
+	Crash   *CrashPlan `json:"crash,omitempty"`
 }
 
 type FramesFaults struct{}
@@ -66,6 +71,7 @@ func (FramesFaults) Generate(seed uint64, tier string) engine.Plan {
 		}
 		p.Msgs = append(p.Msgs, m)
 	}
+	p.ErrKind = r.PickStr("", "", "shortwrite", "shortwrite", "eof", "closedpipe")
 	p.Policies = []simio.ChunkPolicy{genPolicy(r), genPolicy(r)}
 	p.Wraps = []string{wrapKinds[r.Intn(len(wrapKinds))], wrapKinds[r.Intn(len(wrapKinds))]}
 	if p.Family != "corrupt" && r.Chance(1, 60) {
@@ -445,6 +451,18 @@ func (FramesFaults) Execute(pl engine.Plan, c *engine.RunCtx) *engine.Failure {
 
 	case "wfail":
 		// ---- F2: writer-failure sweep
+		werr := error(simio.ErrInjected)
+		switch p.ErrKind {
+		case "shortwrite":
+			werr = io.ErrShortWrite
+		case "eof":
+			werr = io.EOF
+		case "closedpipe":
+			werr = io.ErrClosedPipe
+		}
+		if p.ErrKind != "" {
+			st.Inc("probe.C07.writer_fails_with_" + p.ErrKind)
+		}
 		for fi, fr := range frames {
 			L := len(fr.frame)
 			pts, enumerated := points(p.Points, p.Seed+uint64(fi), L, L, []int{0})
@@ -457,7 +475,7 @@ func (FramesFaults) Execute(pl engine.Plan, c *engine.RunCtx) *engine.Failure {
 						st.Inc("fault.configured.wr.fail_" + mode)
 						st.Inc("fault_points")
 						w := simio.NewWriter()
-						w.Budget, w.Mode, w.Sticky, w.Err = int64(k), mode, sticky, simio.ErrInjected
+						w.Budget, w.Mode, w.Sticky, w.Err = int64(k), mode, sticky, werr
 						step++
 						c.Status.SetStep(uint64(step), 1)
 						n, err, pan := callMarshal(w, fr.msg)
@@ -481,8 +499,8 @@ func (FramesFaults) Execute(pl engine.Plan, c *engine.RunCtx) *engine.Failure {
 						if err == nil {
 							return engine.Failf("C07.wfail.swallowed", step, "%s: the writer failed after %d bytes but Marshal returned nil error (n=%d)", what, len(w.Got)-w.AcceptedPost, n)
 						}
-						if cause(err) != simio.ErrInjected {
-							return engine.Failf("C07.wfail.error", step, "%s: Marshal must return the writer's error, got %v", what, err)
+						if cause(err) != werr {
+							return engine.Failf("C07.wfail.error", step, "%s: Marshal must return the writer's error (%v), got %v", what, werr, err)
 						}
 						if w.AcceptedPost != 0 {
 							return engine.Failf("C07.wfail.after", step, "%s: Marshal kept writing after the writer failed: %d more bytes were emitted", what, w.AcceptedPost)
@@ -858,6 +876,11 @@ func (FramesFaults) Shrink(pl engine.Plan) []engine.Plan {
 			q.Points = append([]int(nil), pts[len(pts)/2:]...)
 			out = append(out, q)
 		}
+	}
+	if p.ErrKind != "" {
+		q := clone()
+		q.ErrKind = ""
+		out = append(out, q)
 	}
 	for i, wk := range p.Wraps {
 		if wk != "" {
